@@ -121,3 +121,123 @@ def check(run, P, files):
                           "(1e-4 for 1e-8)")
     if not hits:
         run.holds("F-DIM/squared-vs-tolerance", "no-squared-length-against-a-length-tolerance", "-", f"{nf} functions of {len(files)} geometry modules scanned; positive example matched")
+
+
+# ---------------------------------------------------------------------------------------------------------------------------------------
+# F-DIM/area-vs-tolerance: |(b - a) x (c - a)| - twice the area of the triangle a, b, c, a product of TWO edge lengths - compared with the tolerance
+# that the package uses for ONE length.  `if norm(cross(b - a, c - a)) < ERROR_TOLERANCE: skip` declares every triangle with edges below
+# sqrt(1e-8) = 1e-4 rad (600 m on the Earth) degenerate.  Same dimensional inconsistency as the squared length above; reported only when both operands of
+# the cross product are recognisably DIFFERENCES of points (so the cross product of two unit position vectors, whose length is the sine of an angle and
+# is rightly compared with a tolerance, is not matched).
+
+
+def _sq_base(t):
+    """name n if t is n[i] * n[i] / n[i] ** 2 / n * n / n ** 2"""
+    if isinstance(t, ast.BinOp) and isinstance(t.op, ast.Mult) and norm(t.left) == norm(t.right):
+        b = t.left
+    elif isinstance(t, ast.BinOp) and isinstance(t.op, ast.Pow) and isinstance(t.right, ast.Constant) and t.right.value == 2:
+        b = t.left
+    else:
+        return None
+    if isinstance(b, ast.Subscript):
+        b = b.value
+    return b if isinstance(b, ast.Name) else None
+
+
+def _length_base(e, defs):
+    """the vector (Name) whose Euclidean length e is: np.linalg.norm(n), np.sqrt(n[0]*n[0] + ..), np.sqrt(np.sum(n * n)), np.sqrt(np.dot(n, n))"""
+    e = _single(e, defs)
+    if not isinstance(e, ast.Call):
+        return None
+    nm = (dotted(e.func) or [""])[-1]
+    if nm == "norm" and e.args and isinstance(e.args[0], ast.Name) and len(e.args) == 1 and not e.keywords:
+        return e.args[0]
+    if nm != "sqrt" or not e.args:
+        return None
+    s = _single(e.args[0], defs)
+    if isinstance(s, ast.Call):
+        n2 = (dotted(s.func) or [""])[-1]
+        if n2 == "sum" and s.args:
+            return _sq_base(_single(s.args[0], defs))
+        if n2 in ("dot", "vdot", "inner") and len(s.args) == 2 and norm(s.args[0]) == norm(s.args[1]) and isinstance(s.args[0], ast.Name):
+            return s.args[0]
+        return None
+    if isinstance(s, ast.BinOp) and isinstance(s.op, ast.MatMult) and norm(s.left) == norm(s.right) and isinstance(s.left, ast.Name):
+        return s.left
+    if isinstance(s, ast.BinOp) and isinstance(s.op, ast.Add):
+        terms = []
+
+        def flat(x):
+            if isinstance(x, ast.BinOp) and isinstance(x.op, ast.Add):
+                flat(x.left)
+                flat(x.right)
+            else:
+                terms.append(x)
+        flat(s)
+        bases = [_sq_base(t) for t in terms]
+        if len(bases) >= 2 and all(b is not None for b in bases) and len({b.id for b in bases}) == 1:
+            return bases[0]
+    return None
+
+
+def _is_point_difference(e, defs):
+    e = _single(e, defs)
+    if isinstance(e, ast.BinOp) and isinstance(e.op, ast.Sub):
+        return True
+    if isinstance(e, ast.Call) and (dotted(e.func) or [""])[-1] in ("array", "asarray") and e.args and isinstance(e.args[0], (ast.List, ast.Tuple)):
+        el = e.args[0].elts
+        return len(el) >= 2 and all(isinstance(x, ast.BinOp) and isinstance(x.op, ast.Sub) for x in el)
+    return False
+
+
+def scan_area(fnode):
+    defs = LocalDefs(fnode)
+    out = []
+    for n in ast.walk(fnode):
+        if isinstance(n, ast.Compare) and len(n.ops) == 1 and isinstance(n.ops[0], (ast.Lt, ast.LtE, ast.Gt, ast.GtE)):
+            a, b = n.left, n.comparators[0]
+            for x, y in ((a, b), (b, a)):
+                if not _is_bare_tolerance(y, defs):
+                    continue
+                v = _length_base(x, defs)
+                c = _single(v, defs) if v is not None else None
+                if isinstance(c, ast.Call) and (dotted(c.func) or [""])[-1] == "cross" and len(c.args) == 2 and all(_is_point_difference(z, defs) for z in c.args):
+                    out.append((n, c, y))
+    return out
+
+
+_SELFTEST_AREA = '''
+def f(node1, node2, node3, v0, v1):
+    normal = np.cross(node2 - node1, node3 - node1)
+    if np.sqrt(np.sum(normal * normal)) < ERROR_TOLERANCE:
+        return 0.0
+    dA = np.array([node1[0] - node3[0], node1[1] - node3[1], node1[2] - node3[2]])
+    dB = np.array([node2[0] - node3[0], node2[1] - node3[1], node2[2] - node3[2]])
+    ec = np.cross(dA, dB)
+    if np.sqrt(ec[0] * ec[0] + ec[1] * ec[1] + ec[2] * ec[2]) < ERROR_TOLERANCE:
+        return 0.0
+    n = np.cross(v0, v1)
+    if np.linalg.norm(n) < ERROR_TOLERANCE:
+        return 1.0
+    if np.linalg.norm(normal) < ERROR_TOLERANCE * ERROR_TOLERANCE:
+        return 2.0
+    return 3.0
+'''
+
+
+def check_area(run, P, prefixes):
+    st = scan_area(ast.parse(_SELFTEST_AREA).body[0])
+    if len(st) != 2:
+        run.incomplete("F-DIM/area-vs-tolerance", "rule-self-test", "uxsa/rules/sqtol.py", f"the rule's own example matched {len(st)} sites instead of 2")
+        return
+    nf = ncross = 0
+    for f in P.all_functions():
+        if not any(f.module.relpath.startswith(p) for p in prefixes):
+            continue
+        nf += 1
+        ncross += sum(1 for c in ast.walk(f.node) if isinstance(c, ast.Call) and (dotted(c.func) or [""])[-1] == "cross")
+        for cmp_, cr, tol in scan_area(f.node):
+            run.violation("F-DIM/area-vs-tolerance", f"{f.key}:{norm(cmp_)[:50]}", where(f, cmp_),
+                          f"`{norm(cmp_)[:70]}` compares |{norm(cr)[:50]}| - twice a triangle's area, a product of two edge lengths - with the length tolerance `{norm(tol)}`: "
+                          "every triangle with edges below sqrt(tolerance) (1e-4 rad for 1e-8) is treated as degenerate and its area is dropped")
+    run.holds("F-DIM/area-vs-tolerance", "no-triangle-area-against-a-length-tolerance", "uxarray/", f"{nf} functions ({ncross} cross products) scanned, positive example matched 2 of its 4 comparisons")
